@@ -35,17 +35,12 @@ def generate(rng, tier, shard, nshards):
                                  site=f"parse/{p}", feat="tlc-family")
     n_grammars = 14 if tier == "quick" else 120
     L = 3 if tier == "quick" else 4
-    for gi in range(n_grammars):
+    order = list(range(n_grammars)) + [len(FAMILIES) - 1] * (3 if tier == "quick" else 12)    # more of the signed family
+    for gi in order:
         srn, shape, parsers = FAMILIES[gi % len(FAMILIES)]
         R = gops.SR[srn]
         if shape == "signed":
-            g0 = fam.rand_cfg(rng, R, shape="acyclic", nN=rng.choice([2, 3, 3]), nrules=rng.choice([4, 6, 7]), dup=0.5)
-            g = g0.spawn()
-            seen = set()
-            for r in g0.rules:                 # a repeated rule comes back with the opposite weight: exact cancellation
-                k = (r.head, r.body)
-                g.add(-r.w if (k in seen or rng.random() < 0.25) else r.w, r.head, *r.body)
-                seen.add(k)
+            g = fam.signed_cfg(rng, R)
             shape = "acyclic"
         else:
             g = fam.rand_cfg(rng, R, shape=shape, nN=rng.choice([2, 3, 3, 4]), nrules=rng.choice([3, 5, 6]))
